@@ -33,7 +33,9 @@ func selectsIn(fn *ssa.Function) []*ssa.Select {
 // isCtxDone reports whether ch is the result of Done() on a context value,
 // and returns that context value (free variables resolved outwards).
 func isCtxDone(ch ssa.Value) (ssa.Value, bool) {
-	c, ok := ch.(*ssa.Call)
+	/* (also when the channel was fetched once and kept: done :=
+	ctx.Done(), possibly captured by the literal which selects on it) */
+	c, ok := resolveCell(ch).(*ssa.Call)
 	if !ok {
 		return nil, false
 	}
